@@ -3,3 +3,4 @@ import DsdVerif.Props.C17
 import DsdVerif.Props.C14Reader
 import DsdVerif.Props.C14Sigma
 import DsdVerif.Props.C14SigmaCplx
+import DsdVerif.Props.C14Text
